@@ -178,6 +178,18 @@ class World(ControlWorld):
                 self.sit["C18.direct_use_between_lines"] += 1
             s = rng.choice(free)
             x = rng.random()
+            if rng.random() < 0.06 and not pool.is_locked:
+                # a client that does not wait for replies: a request and the cancellation of everything in one segment
+                # (the spawner is then cancelled before it has taken a single step)
+                spawn = "start 2" if self.sc["cls"] != "T" else f"apply vf.targets.{rng.choice(['work', 'block'])} --num 2"
+                both = await self.send_batch(s, [spawn, rng.choice(["cancel-all", "cancel-all --msg bye"])])
+                self.sit["C18.pipelined_spawn_cancel"] += 1
+                if len(both) != 2:
+                    self.violate("C18.one_reply", f"a request and cancel-all in one segment produced {len(both)} writes: {[b[:40] for b in both]}")
+                if s.task.done():
+                    self.violate("C18.alive", "the session ended after a pipelined request + cancel-all")
+                    return
+                continue
             if x < 0.05:
                 kind, line = "valid", rng.choice(["flush", "flush", "gather-and-close", "flush -r", "until-closed"])
             elif x < 0.22:
